@@ -27,9 +27,9 @@ for pid in ids:
         dst = os.path.join("/verif/seeded", pid, n)
         os.makedirs(dst, exist_ok=True)
         for f in ("patch.diff", "demonstration.md"):
-            if os.path.exists(os.path.join(d, f)):
+            if os.path.exists(os.path.join(d, f)) and os.path.realpath(d) != os.path.realpath(dst):
                 shutil.copy(os.path.join(d, f), dst)
-        if os.path.isdir(os.path.join(d, "demo")):
+        if os.path.isdir(os.path.join(d, "demo")) and os.path.realpath(d) != os.path.realpath(dst):
             shutil.copytree(os.path.join(d, "demo"), os.path.join(dst, "demo"), dirs_exist_ok=True)
         meta = {}
         try:
